@@ -21,18 +21,31 @@ import (
 	"github.com/kubewharf/kubegateway/pkg/ratelimiter/limiter"
 )
 
+type c07Item struct {
+	S     int    `json:"s"`   // schema id
+	Typ   string `json:"typ"` // max | bucket | none (item without a limit member)
+	Count bool   `json:"count"`
+	Used  int32  `json:"used"`
+	Level int32  `json:"level"`
+}
+
 type c07Report struct {
-	I     int   `json:"i"`
-	Used  int32 `json:"used"`
-	Level int32 `json:"level"`
+	I     int       `json:"i"`
+	Items []c07Item `json:"items"`
+}
+
+type c07Schema struct {
+	S     int    `json:"s"`
+	Typ   string `json:"typ"`
+	Limit int32  `json:"limit"`
+	Burst int32  `json:"burst"`
 }
 
 type c07Step struct {
-	Op    string      `json:"op"` // reports | setlimit | remove
-	Rs    []c07Report `json:"rs"`
-	Limit int32       `json:"limit"`
-	Burst int32       `json:"burst"`
-	I     int         `json:"i"`
+	Op string      `json:"op"` // reports | setschema | remove
+	Rs []c07Report `json:"rs"`
+	c07Schema
+	I int `json:"i"`
 }
 
 type c07Case struct {
@@ -49,10 +62,9 @@ type c07Case struct {
 	Level     int32 `json:"level"`
 	Clients   int64 `json:"clients"`
 	// hist
-	Limit int32     `json:"limit"`
-	Burst int32     `json:"burst"`
-	Extra int       `json:"extra"`
-	Steps []c07Step `json:"steps"`
+	Extra   int         `json:"extra"`
+	Schemas []c07Schema `json:"schemas"`
+	Steps   []c07Step   `json:"steps"`
 }
 
 type c07Ans struct {
@@ -67,25 +79,43 @@ type c07Quota struct {
 	B int64 `json:"b"`
 }
 
-type c07StepObs struct {
-	UpLevel int64      `json:"uplevel"` // upstream RequestLevel on record before the step
-	Cur     []int64    `json:"cur"`
-	Ans     []c07Ans   `json:"ans"`
-	Quotas  []c07Quota `json:"quotas"`
-	Rec     int64      `json:"rec"`
+// what one report came back with
+type c07Res struct {
+	Res string   `json:"res"` // ok | err | panic
+	Cur []int64  `json:"cur"` // the current quota each item carried
+	Ans []c07Ans `json:"ans"` // per item of the report (ok only)
 }
 
-const schemaName = "s"
+// what the server has on record for one schema after a step
+type c07SchemaObs struct {
+	S       int        `json:"s"`
+	UpLevel int64      `json:"uplevel"` // upstream RequestLevel on record BEFORE the step
+	Max     []c07Quota `json:"max"`     // recorded items with a max-in-flight member
+	Bucket  []c07Quota `json:"bucket"`  // recorded items with a token-bucket member
+	RecMax  int64      `json:"rec_max"`
+	RecQPS  int64      `json:"rec_qps"`
+}
+
+type c07StepObs struct {
+	Reports []c07Res       `json:"reports"`
+	Schemas []c07SchemaObs `json:"schemas"`
+}
+
 const upstreamName = "up"
 
+func schemaName(id int) string { return fmt.Sprintf("s%d", id) }
+
 func detail(typ string, v, burst int32) proxyv1alpha1.LimitItemDetail {
-	if typ == "bucket" {
+	switch typ {
+	case "bucket":
 		return proxyv1alpha1.LimitItemDetail{TokenBucket: &proxyv1alpha1.TokenBucketFlowControlSchema{QPS: v, Burst: burst}}
+	case "max":
+		return proxyv1alpha1.LimitItemDetail{MaxRequestsInflight: &proxyv1alpha1.MaxRequestsInflightFlowControlSchema{Max: v}}
 	}
-	return proxyv1alpha1.LimitItemDetail{MaxRequestsInflight: &proxyv1alpha1.MaxRequestsInflightFlowControlSchema{Max: v}}
+	return proxyv1alpha1.LimitItemDetail{}
 }
 
-// project the (quota, burst) of an answered item by the upstream's type
+// project the (quota, burst) of an item by the given type
 func project(typ string, d proxyv1alpha1.LimitItemDetail) (int64, int64, bool) {
 	if typ == "bucket" {
 		if d.TokenBucket == nil {
@@ -96,11 +126,7 @@ func project(typ string, d proxyv1alpha1.LimitItemDetail) (int64, int64, bool) {
 	if d.MaxRequestsInflight == nil {
 		return 0, 0, false
 	}
-	b := int64(0)
-	if d.TokenBucket != nil {
-		b = int64(d.TokenBucket.Burst)
-	}
-	return int64(d.MaxRequestsInflight.Max), b, true
+	return int64(d.MaxRequestsInflight.Max), 0, true
 }
 
 func runCalc(c c07Case) (res interface{}) {
@@ -113,10 +139,10 @@ func runCalc(c c07Case) (res interface{}) {
 	if c.Count {
 		strategy = proxyv1alpha1.GlobalCountLimit
 	}
-	total := proxyv1alpha1.RateLimitItemConfiguration{Name: schemaName, LimitItemDetail: detail(c.Typ, c.Total, c.GBurst)}
-	usedUp := proxyv1alpha1.RateLimitItemStatus{Name: schemaName, LimitItemDetail: detail(c.Typ, c.Allocated, 0), RequestLevel: c.UpLevel}
-	cfg := proxyv1alpha1.RateLimitItemConfiguration{Name: schemaName, Strategy: strategy, LimitItemDetail: detail(c.Typ, c.Current, 7)}
-	st := proxyv1alpha1.RateLimitItemStatus{Name: schemaName, LimitItemDetail: detail(c.Typ, c.Used, 0), RequestLevel: c.Level}
+	total := proxyv1alpha1.RateLimitItemConfiguration{Name: "s", LimitItemDetail: detail(c.Typ, c.Total, c.GBurst)}
+	usedUp := proxyv1alpha1.RateLimitItemStatus{Name: "s", LimitItemDetail: detail(c.Typ, c.Allocated, 0), RequestLevel: c.UpLevel}
+	cfg := proxyv1alpha1.RateLimitItemConfiguration{Name: "s", Strategy: strategy, LimitItemDetail: detail(c.Typ, c.Current, 7)}
+	st := proxyv1alpha1.RateLimitItemStatus{Name: "s", LimitItemDetail: detail(c.Typ, c.Used, 0), RequestLevel: c.Level}
 	cond := &proxyv1alpha1.RateLimitCondition{ObjectMeta: metav1.ObjectMeta{Name: "c"}}
 	out := limiter.VerifCalculateNextQuota(total, usedUp, cfg, st, int(c.Clients), cond)
 	q, b, ok := project(c.Typ, out.LimitItemDetail)
@@ -126,53 +152,66 @@ func runCalc(c c07Case) (res interface{}) {
 	return c07Ans{Ok: true, Q: q, B: b}
 }
 
-func cluster(typ string, limit, burst int32) *proxyv1alpha1.UpstreamCluster {
-	cfg := proxyv1alpha1.FlowControlSchemaConfiguration{}
-	if typ == "bucket" {
-		cfg.GlobalTokenBucket = &proxyv1alpha1.TokenBucketFlowControlSchema{QPS: limit, Burst: burst}
-	} else {
-		cfg.GlobalMaxRequestsInflight = &proxyv1alpha1.MaxRequestsInflightFlowControlSchema{Max: limit}
+func cluster(schemas []c07Schema) *proxyv1alpha1.UpstreamCluster {
+	var list []proxyv1alpha1.FlowControlSchema
+	for _, sc := range schemas {
+		cfg := proxyv1alpha1.FlowControlSchemaConfiguration{}
+		if sc.Typ == "bucket" {
+			cfg.GlobalTokenBucket = &proxyv1alpha1.TokenBucketFlowControlSchema{QPS: sc.Limit, Burst: sc.Burst}
+		} else {
+			cfg.GlobalMaxRequestsInflight = &proxyv1alpha1.MaxRequestsInflightFlowControlSchema{Max: sc.Limit}
+		}
+		list = append(list, proxyv1alpha1.FlowControlSchema{Name: schemaName(sc.S), FlowControlSchemaConfiguration: cfg})
 	}
 	return &proxyv1alpha1.UpstreamCluster{
 		ObjectMeta: metav1.ObjectMeta{Name: upstreamName},
-		Spec: proxyv1alpha1.UpstreamClusterSpec{
-			FlowControl: proxyv1alpha1.FlowControl{
-				Schemas: []proxyv1alpha1.FlowControlSchema{{Name: schemaName, FlowControlSchemaConfiguration: cfg}},
-			},
-		},
+		Spec:       proxyv1alpha1.UpstreamClusterSpec{FlowControl: proxyv1alpha1.FlowControl{Schemas: list}},
 	}
 }
 
 func instName(i int) string { return fmt.Sprintf("gw%d", i) }
 func condName(i int) string { return upstreamName + "." + instName(i) }
 
+type held struct {
+	typ  string
+	q, b int32
+}
+type holdKey struct{ i, s int }
+
 func runHist(c c07Case) interface{} {
 	rig := newLimRig("me", 1, "local")
 	rig.startLeading(0)
-	cl := cluster(c.Typ, c.Limit, c.Burst)
+	schemas := append([]c07Schema{}, c.Schemas...)
+	cl := cluster(schemas)
 	rig.setCluster(cl)
 	must(rig.v.Handler(cl))
 	for k := 0; k < c.Extra; k++ {
 		must(rig.rl.Heartbeat(fmt.Sprintf("idle%d", k)))
 	}
-	// what each honest instance holds: the last answer it received
-	type held struct{ q, b int32 }
-	holds := map[int]held{}
+	// what each honest instance holds per schema: the last answer it received, with its item type
+	holds := map[holdKey]held{}
 
-	steps := []c07StepObs{}
-	for _, st := range c.Steps {
-		ob := c07StepObs{Cur: []int64{}, Ans: []c07Ans{}, Quotas: []c07Quota{}}
+	levels := func() map[int]int64 {
+		out := map[int]int64{}
 		if up, err := rig.rl.GetUpstreamStatus(upstreamName); err == nil {
 			for _, s := range up.Status.LimitItemStatuses {
-				if s.Name == schemaName {
-					ob.UpLevel = int64(s.RequestLevel)
+				var id int
+				if _, err := fmt.Sscanf(s.Name, "s%d", &id); err == nil {
+					out[id] = int64(s.RequestLevel)
 				}
 			}
 		}
+		return out
+	}
+
+	steps := []c07StepObs{}
+	for _, st := range c.Steps {
+		ob := c07StepObs{Reports: []c07Res{}, Schemas: []c07SchemaObs{}}
+		before := levels()
 		switch st.Op {
 		case "reports":
-			ob.Ans = make([]c07Ans, len(st.Rs))
-			newHolds := make([]*held, len(st.Rs))
+			ob.Reports = make([]c07Res, len(st.Rs))
+			newHolds := make([]map[holdKey]held, len(st.Rs))
 			// overlapping reports: every goroutine spins on a barrier and all are released at
 			// once, so that they pass the lock-free prefix of UpdateRateLimitConditionStatus together
 			var wg, ready sync.WaitGroup
@@ -180,104 +219,154 @@ func runHist(c c07Case) interface{} {
 			for _, r := range st.Rs {
 				must(rig.rl.Heartbeat(instName(r.I)))
 			}
+			nrs := len(st.Rs)
 			for k, r := range st.Rs {
-				h := holds[r.I]
-				ob.Cur = append(ob.Cur, int64(h.q))
+				res := c07Res{Res: "panic", Cur: []int64{}, Ans: []c07Ans{}}
 				cond := &proxyv1alpha1.RateLimitCondition{
 					ObjectMeta: metav1.ObjectMeta{Name: condName(r.I)},
-					Spec: proxyv1alpha1.RateLimitSpec{
-						UpstreamCluster: upstreamName,
-						Instance:        instName(r.I),
-						LimitItemConfigurations: []proxyv1alpha1.RateLimitItemConfiguration{{
-							Name: schemaName, Strategy: proxyv1alpha1.GlobalAllocateLimit,
-							LimitItemDetail: detail(c.Typ, h.q, h.b),
-						}},
-					},
-					Status: proxyv1alpha1.RateLimitStatus{
-						LimitItemStatuses: []proxyv1alpha1.RateLimitItemStatus{{
-							Name: schemaName, LimitItemDetail: detail(c.Typ, r.Used, 0), RequestLevel: r.Level,
-						}},
-					},
+					Spec:       proxyv1alpha1.RateLimitSpec{UpstreamCluster: upstreamName, Instance: instName(r.I)},
 				}
+				types := []string{}
+				for _, it := range r.Items {
+					h := holds[holdKey{r.I, it.S}]
+					var q, b int32
+					if h.typ == it.Typ { // an honest instance reports what it holds of that item type
+						q, b = h.q, h.b
+					}
+					res.Cur = append(res.Cur, int64(q))
+					strategy := proxyv1alpha1.GlobalAllocateLimit
+					if it.Count {
+						strategy = proxyv1alpha1.GlobalCountLimit
+					}
+					cond.Spec.LimitItemConfigurations = append(cond.Spec.LimitItemConfigurations,
+						proxyv1alpha1.RateLimitItemConfiguration{Name: schemaName(it.S), Strategy: strategy, LimitItemDetail: detail(it.Typ, q, b)})
+					cond.Status.LimitItemStatuses = append(cond.Status.LimitItemStatuses,
+						proxyv1alpha1.RateLimitItemStatus{Name: schemaName(it.S), LimitItemDetail: detail(it.Typ, it.Used, 0), RequestLevel: it.Level})
+					// the type the answer will carry: the upstream's
+					ut := ""
+					for _, sc := range schemas {
+						if sc.S == it.S {
+							ut = sc.Typ
+						}
+					}
+					types = append(types, ut)
+				}
+				ob.Reports[k] = res
 				wg.Add(1)
 				ready.Add(1)
-				go func(k int, cond *proxyv1alpha1.RateLimitCondition) {
+				go func(k int, r c07Report, cond *proxyv1alpha1.RateLimitCondition, types []string) {
 					defer wg.Done()
 					ready.Done()
 					for atomic.LoadInt32(&release) == 0 {
-						if len(st.Rs) >= runtime.GOMAXPROCS(0) {
+						if nrs >= runtime.GOMAXPROCS(0) {
 							runtime.Gosched()
 						}
 					}
 					defer func() {
 						if rec := recover(); rec != nil {
-							ob.Ans[k] = c07Ans{Ok: false}
+							ob.Reports[k].Res = "panic"
+							ob.Reports[k].Ans = []c07Ans{}
 						}
 					}()
 					out, err := rig.rl.UpdateRateLimitConditionStatus(upstreamName, cond)
-					if err != nil || out == nil || len(out.Spec.LimitItemConfigurations) != 1 {
-						ob.Ans[k] = c07Ans{Ok: false}
+					if err != nil || out == nil {
+						ob.Reports[k].Res = "err"
 						return
 					}
-					q, b, ok := project(c.Typ, out.Spec.LimitItemConfigurations[0].LimitItemDetail)
-					if !ok {
-						ob.Ans[k] = c07Ans{Ok: false}
-						return
+					if len(out.Spec.LimitItemConfigurations) != len(r.Items) {
+						panic("answer with another number of items")
 					}
-					ob.Ans[k] = c07Ans{Ok: true, Q: q, B: b}
-					newHolds[k] = &held{int32(q), int32(b)}
-				}(k, cond)
+					nh := map[holdKey]held{}
+					for j, it := range out.Spec.LimitItemConfigurations {
+						if it.Name != schemaName(r.Items[j].S) {
+							panic("answer items out of order")
+						}
+						q, b, ok := project(types[j], it.LimitItemDetail)
+						if !ok {
+							panic("answer item without the upstream's limit member")
+						}
+						ob.Reports[k].Ans = append(ob.Reports[k].Ans, c07Ans{Ok: true, Q: q, B: b})
+						nh[holdKey{r.I, r.Items[j].S}] = held{types[j], int32(q), int32(b)}
+					}
+					ob.Reports[k].Res = "ok"
+					newHolds[k] = nh
+				}(k, r, cond, types)
 			}
 			ready.Wait()
 			atomic.StoreInt32(&release, 1)
 			wg.Wait()
 			for k, r := range st.Rs {
 				if newHolds[k] != nil {
-					holds[r.I] = *newHolds[k]
+					// the instance now holds exactly what it was answered
+					for key := range holds {
+						if key.i == r.I {
+							delete(holds, key)
+						}
+					}
+					for key, h := range newHolds[k] {
+						holds[key] = h
+					}
 				}
 			}
-		case "setlimit":
-			cl = cluster(c.Typ, st.Limit, st.Burst)
+		case "setschema":
+			for k := range schemas {
+				if schemas[k].S == st.S {
+					schemas[k] = st.c07Schema
+				}
+			}
+			cl = cluster(schemas)
 			rig.setCluster(cl)
 			must(rig.v.Handler(cl))
 		case "remove":
 			rig.v.ForgetClient(instName(st.I))
 			rig.v.CleanupUnknownCondition()
-			delete(holds, st.I)
+			for key := range holds {
+				if key.i == st.I {
+					delete(holds, key)
+				}
+			}
 		default:
 			panic("unknown op " + st.Op)
 		}
-		// what the server has on record now
+		// what the server has on record now, per schema
 		conds, _ := rig.v.StoreConditions(0)
-		for _, cd := range conds {
-			if cd.Spec.UpstreamCluster != upstreamName || cd.Name == upstreamName+".state" {
-				continue
-			}
-			var id int
-			if _, err := fmt.Sscanf(cd.Spec.Instance, "gw%d", &id); err != nil {
-				panic("unexpected condition " + cd.Name)
-			}
-			for _, it := range cd.Spec.LimitItemConfigurations {
-				if it.Name != schemaName {
-					continue
-				}
-				q, b, ok := project(c.Typ, it.LimitItemDetail)
-				if !ok {
-					panic("stored item without limit")
-				}
-				ob.Quotas = append(ob.Quotas, c07Quota{I: id, Q: q, B: b})
-			}
-		}
-		sort.Slice(ob.Quotas, func(a, b int) bool { return ob.Quotas[a].I < ob.Quotas[b].I })
 		up, err := rig.rl.GetUpstreamStatus(upstreamName)
 		must(err)
-		for _, s := range up.Status.LimitItemStatuses {
-			if s.Name == schemaName {
-				q, _, ok := project(c.Typ, s.LimitItemDetail)
-				if ok {
-					ob.Rec = q
+		for _, sc := range schemas {
+			so := c07SchemaObs{S: sc.S, UpLevel: before[sc.S], Max: []c07Quota{}, Bucket: []c07Quota{}}
+			for _, cd := range conds {
+				if cd.Spec.UpstreamCluster != upstreamName || cd.Name == upstreamName+".state" {
+					continue
+				}
+				var id int
+				if _, err := fmt.Sscanf(cd.Spec.Instance, "gw%d", &id); err != nil {
+					panic("unexpected condition " + cd.Name)
+				}
+				for _, it := range cd.Spec.LimitItemConfigurations {
+					if it.Name != schemaName(sc.S) {
+						continue
+					}
+					if it.MaxRequestsInflight != nil {
+						so.Max = append(so.Max, c07Quota{I: id, Q: int64(it.MaxRequestsInflight.Max)})
+					}
+					if it.TokenBucket != nil {
+						so.Bucket = append(so.Bucket, c07Quota{I: id, Q: int64(it.TokenBucket.QPS), B: int64(it.TokenBucket.Burst)})
+					}
 				}
 			}
+			sort.Slice(so.Max, func(a, b int) bool { return so.Max[a].I < so.Max[b].I })
+			sort.Slice(so.Bucket, func(a, b int) bool { return so.Bucket[a].I < so.Bucket[b].I })
+			for _, s := range up.Status.LimitItemStatuses {
+				if s.Name == schemaName(sc.S) {
+					if s.MaxRequestsInflight != nil {
+						so.RecMax = int64(s.MaxRequestsInflight.Max)
+					}
+					if s.TokenBucket != nil {
+						so.RecQPS = int64(s.TokenBucket.QPS)
+					}
+				}
+			}
+			ob.Schemas = append(ob.Schemas, so)
 		}
 		steps = append(steps, ob)
 	}
